@@ -389,6 +389,9 @@ func (d *Do) Evaluation(
 
 	// {}
 	if nextT.IsTargetIdentifier("}") {
+		// the closer belongs to this block: left behind, it would end an
+		// enclosing block
+		p.Read()
 		p.SetLastEvaluatedT(base.MakeBlock())
 		return nil
 	}
